@@ -487,10 +487,20 @@ def match_known(pid, v, kf):
     for f in kf.get('findings', []):
         if f.get('property') != pid:
             continue
-        for c in v.get('cases', []):
-            if f.get('ev') and f['ev'] != c[0]:
+        tags = v.get('tags') or {}
+        if 'fn' in f:
+            if tags.get('fn') not in f['fn']:
                 continue
-            if re.fullmatch(f['expr_regex'], dec_expr(c[3])):
+            if f.get('ev') and tags.get('ev') not in f['ev']:
+                continue
+            a = tags.get('arg')
+            if a is None or not any(lo <= a <= hi for lo, hi in f.get('ranges', [[-1e400, 1e400]])):
+                continue
+            return f['what']
+        for c in v.get('cases', []):
+            if f.get('ev') and c[0] not in f['ev']:
+                continue
+            if 'expr_regex' in f and re.fullmatch(f['expr_regex'], dec_expr(c[3])):
                 return f['what']
     return None
 
@@ -1035,6 +1045,8 @@ def lit_reference(ev, text):
     from fractions import Fraction as Fr
     if text.count('.') > 1 or not text.replace('.', '').isdigit() or text.startswith('.') and ev == 'i64':
         return None
+    if text.startswith('.') and len(text) == 1:
+        return None
     if ev == 'i64':
         if '.' in text:
             return None
@@ -1077,6 +1089,13 @@ def run_C19(tier, rng, stats):
             j = rng.below(n + 1)
             s = s[:j] + '.' + s[j:]
         lits.add(s)
+    # the leading-point form of every literal gathered so far, and long digit runs after a leading point
+    for l in list(lits):
+        if '.' not in l:
+            lits.add('.' + l)
+    for _ in range(200 if tier == 'quick' else 3000):
+        lits.add('.' + ''.join(str(rng.below(10)) for _ in range(16 + rng.below(25))))
+        lits.add(str(rng.below(10)) + '.' + ''.join(str(rng.below(10)) for _ in range(16 + rng.below(25))))
     lits.discard('.')
     cs = []
     for ev in EVS:
@@ -1291,3 +1310,156 @@ def run_C17(tier, rng, stats):
     return res
 
 PROPS['C17'] = {}
+
+# ============================================================================ C10 / C08 / C15 / C07: numeric references
+import numref
+
+def num_of(ev, out):
+    """numeric value (float) of an OK outcome; None otherwise"""
+    if not out.startswith('OK '):
+        return None
+    v = out[3:]
+    if ev == 'f64':
+        return w2f(v)
+    if ev == 'i64':
+        return float(int(v))
+    if ev == 'number':
+        return float(int(v[1:])) if v[0] == 'I' else w2f(v[1:])
+    if ev == 'decimal':
+        q = value_of_out('decimal', out)
+        return float(q) if q is not None else None
+    return None
+
+C10_XS = [-150.5, -100.25, -10.5, -3.0, -2.5, -1.0, -0.7, -0.5, -0.25, -1e-9, 0.0, 1e-9, 0.25, 0.5, 0.7, 1.0, 1.5, 2.0, 2.5, 3.0, 10.0,
+          20.5, 100.0, 150.5, 170.0, 700.0, 1e6, 1e15]
+EXACT_FNS = {'abs', 'sgn', 'sign', 'signum', 'floor', 'ceil', 'trunc', 'truncate', 'round'}
+
+def dec_lit(x):
+    """a decimal literal (possibly bracketed negative) for a float that has a short exact decimal form"""
+    s = format(_D(repr(abs(x))), 'f')
+    return s if x >= 0 else '(-' + s + ')'
+
+def run_C10(tier, rng, stats):
+    cs = []
+    meta = {}
+    nrand = 6 if tier == 'quick' else 60
+    def add(ev, expr, ph, tag):
+        c = case(ev, 'eval', ph, expr)
+        cs.append(c)
+        meta[c] = tag
+    for ev in ['f64', 'number']:
+        mk = (lambda x: f2w(x)) if ev == 'f64' else (lambda x: 'F' + f2w(x))
+        for f in gen.F1[ev]:
+            xs = C10_XS + [rng.choice([-1, 1]) * 10 ** (rng.below(9) - 4) * (1 + rng.below(1000) / 1000) for _ in range(nrand)]
+            for x in xs:
+                add(ev, f + '(@)', mk(x), ('f1', f, (x,)))
+        for f in [g for g in gen.F2[ev] if g != 'ilog']:
+            for _ in range(20 if tier == 'quick' else 200):
+                x = rng.choice(C10_XS[5:25]); y = rng.choice(C10_XS[5:23])
+                add(ev, f + '(@,' + dec_lit(y) + ')', mk(x), ('f2', f, (x, y)))
+        for x in [float(n) for n in range(0, 25)] + [30.0, 100.0, 150.0, 170.0, 171.0, 0.5, 1.5, 2.5, -0.5, -0.7, -1.5, -2.5, 10.25, 100.5, 149.5, -149.5, 20.0, 21.0]:
+            add(ev, '@!', mk(x), ('fact', '!', (x,)))
+        for x in C10_XS:
+            add(ev, '@°', mk(x), ('deg', '°', (x,)))
+            add(ev, '@rad', mk(x), ('rad', 'rad', (x,)))
+        add(ev, 'pi', None, ('const', 'pi', ())); add(ev, 'π', None, ('const', 'pi', ())); add(ev, 'e', None, ('const', 'e', ()))
+        if ev == 'number':
+            for n in list(range(0, 23)) + [170]:
+                add(ev, '@!', 'I%d' % n, ('facti', '!', (float(n),)))
+    # eval_i64: real-valued functions within 1 of the real result
+    for f in ['sqrt', 'ln', 'lb', 'exp']:
+        for n in [0, 1, 2, 3, 4, 10, 15, 16, 17, 24, 25, 26, 36, 99, 100, 1000, 65535, 65536, 10**6, 10**9, 10**12, 2**31, 2**52, 2**53 - 1] + [rng.below(10**9) for _ in range(nrand)]:
+            if f == 'exp' and n > 36:
+                continue
+            add('i64', f + '(@)', str(n), ('i1', f, (float(n),)))
+    for _ in range(40 if tier == 'quick' else 400):
+        n = 2 + rng.below(6); x = rng.below(10**9)
+        add('i64', 'root(%d,@)' % n, str(x), ('i2', 'root', (float(n), float(x))))
+        b = 2 + rng.below(20)
+        add('i64', 'log(@,%d)' % b, str(1 + x), ('i2', 'log', (float(1 + x), float(b))))
+    for n in range(0, 21):
+        add('i64', '@!', str(n), ('facti', '!', (float(n),)))
+    for x in [-5, -1, 0, 1, 7]:
+        add('i64', 'sgn(@)', str(x), ('f1', 'sgn', (float(x),))); add('i64', 'abs(@)', str(x), ('f1', 'abs', (float(x),)))
+    # eval_decimal
+    for f in gen.F1['decimal']:
+        for x in [-10.5, -2.5, -1.0, -0.5, -0.25, 0.0, 0.25, 0.5, 1.0, 1.5, 2.0, 2.5, 3.0, 10.0, 20.5, 50.0] + [rng.below(20000) / 1000 for _ in range(nrand)]:
+            add('decimal', f + '(' + dec_lit(x) + ')', None, ('f1', f, (x,)))
+    for f in ['mod', 'pow', 'root', 'log']:
+        for _ in range(15 if tier == 'quick' else 150):
+            x = rng.choice([0.5, 1.5, 2.0, 2.5, 3.0, 7.0, 10.0]); y = rng.choice([0.5, 1.5, 2.0, 3.0, 4.0])
+            add('decimal', f + '(' + dec_lit(x) + ',' + dec_lit(y) + ')', None, ('f2', f, (x, y)))
+    for x in [float(n) for n in range(0, 28)] + [0.5, 1.5, 2.5, -0.5, -0.7, 10.25]:
+        add('decimal', dec_lit(x) + '!', None, ('fact', '!', (x,)))
+    cases, outs, model = run_streams(cs, stats)
+    res = std_judge('C10', cases, outs, model)
+    n = nd = 0
+    worst = {}
+    for c, x in zip(cases, outs['debug']):
+        kind, f, args = meta[c]
+        ev = c[0]
+        got = num_of(ev, vlib.strip_ticks(x))
+        ref = None
+        tol = 1e-9
+        if kind == 'f1':
+            ref = numref.F1[f](*args)
+            if f in EXACT_FNS:
+                tol = 0.0
+            if ev == 'decimal' and f == 'round':     # banker's rounding in eval_decimal
+                a = args[0]; fl = math.floor(a)
+                ref = float(fl + (1 if a - fl > 0.5 or (a - fl == 0.5 and fl % 2 == 1) else 0))
+        elif kind == 'f2':
+            ref = numref.F2[f](*args)
+        elif kind == 'fact':
+            a = args[0]
+            if abs(a) > 150 and a != int(a):
+                continue
+            ref = numref.fact(a)
+            if a == int(a) and 0 <= a <= 22:
+                tol = 0.0 if ev != 'decimal' else 1e-27
+        elif kind == 'facti':
+            ref = float(math.factorial(int(args[0])))
+            tol = 0.0 if args[0] <= 20 or ev != 'number' else 1e-12
+            if ev == 'number' and args[0] <= 20 and not vlib.strip_ticks(x).startswith('OK I'):
+                res['violations'].insert(0, {'kind': 'function-value', 'cases': [list(c)], 'observed': x, 'expected': 'Integer',
+                                             'why': '%d! must be an exact Integer' % args[0], 'tags': {'fn': f}})
+        elif kind == 'deg':
+            ref = args[0] * math.pi / 180
+        elif kind == 'rad':
+            ref = args[0] * 180 / math.pi
+        elif kind == 'const':
+            ref = math.pi if f == 'pi' else math.e
+            tol = 0.0 if ev != 'decimal' else 1e-27
+        elif kind == 'i1':
+            ref = numref.F1[f](*args)
+        elif kind == 'i2':
+            ref = numref.F2[f](*args)
+        if ref is None or ref != ref:
+            continue          # outside the function's domain: the property says nothing
+        if kind in ('i1', 'i2'):
+            if abs(ref) >= 2**53:
+                continue
+            n += 1
+            ok = got is not None and abs(got - ref) <= 1.0 + 1e-9 * abs(ref)
+        else:
+            if math.isinf(ref) and ev == 'decimal':
+                continue
+            if ev == 'decimal' and (abs(ref) > 7e28 or (got is None and (abs(ref) > 1e27 or f in ('w', 'lambert_w', 'ln', 'lb', 'exp', 'pow', 'root', 'log', 'sqrt', '!')))):
+                continue      # rust_decimal's range / its own checked_* failures: not decided by this reference
+            n += 1
+            ok = got is not None and numref.close(got, ref, tol if tol else 0.0, 1e-300) if tol else (got is not None and (got == ref or (got != got and ref != ref)))
+        if got is not None and ref not in (0.0,) and not math.isinf(ref) and got == got:
+            worst[f] = max(worst.get(f, 0.0), abs(got - ref) / max(abs(ref), 1e-300))
+        if not ok:
+            nd += 1
+            res['violations'].insert(0, {'kind': 'function-value', 'cases': [list(c)], 'observed': x, 'expected': repr(ref),
+                                         'why': '%s%s in eval_%s: got %s, reference %r' % (f, args, ev, vlib.strip_ticks(x), ref),
+                                         'tags': {'fn': f, 'arg': args[0] if args else None, 'ev': ev}})
+    res['levels']['value-vs-numeric-reference'] = (n, nd)
+    stats.setdefault('exploration', {})['max_relative_error_by_function'] = {k: float('%.3g' % v) for k, v in sorted(worst.items())}
+    stats['rule'] = ('every (evaluator, function name / alias / constant / postfix operator) of the vocabulary x arguments sampled over the domain (edges, large and negative arguments, random), '
+                     'compared with the model (bit exact) and with an independent numeric reference (Python math, own Lambert W, Gamma): exact for abs sgn floor ceil trunc round n!, 1e-9 relative otherwise, '
+                     'within 1 for the integer-valued real functions of eval_i64')
+    return res
+
+PROPS['C10'] = {}
